@@ -53,6 +53,15 @@ Proof. exact (@ArrayBytes.array_bytes). Qed.
 End T_array_bytes.
 Definition C17_array_bytes := @T_array_bytes.C17_array_bytes.
 
+Module T_array_counts_once. Import ArrayBytes. Local Open Scope bool_scope. Local Open Scope Z_scope.
+Import BufModel. Local Open Scope Z_scope.
+Theorem C17_array_counts_once :
+  forall native_le fmt size vals,
+  snd (array_binary native_le fmt size vals) = 1.
+Proof. exact (@ArrayBytes.array_counts_once). Qed.
+End T_array_counts_once.
+Definition C17_array_counts_once := @T_array_counts_once.C17_array_counts_once.
+
 Module T_block_header_eq. Import RtBlock. Local Open Scope bool_scope. Local Open Scope Z_scope.
 Import FmtModel IntFmtProofs LexModel LexBounds DecSpec MoreSpecs ParserModel. Local Open Scope Z_scope.
 Theorem C17_block_header_eq :
